@@ -1335,4 +1335,76 @@ theorem dcDivapprF_spec (T C : Nat) (hT : 6 ≤ T) (hC : 3 ≤ C) :
     rw [if_pos hcut] at hdn
     exact ⟨by rw [c5]; exact hq0, c8 hdn hq0⟩
 
+/-- error budget: from the two halves of `CallSpec` (relative to the limbs used) to ⌊N/D0⌋ or ⌊N/D0⌋ + 1 -/
+theorem appr_budget (Q N D0 Ps n Bn : Nat) (hPs : 0 < Ps) (hD0 : 0 < D0)
+    (c1 : N / Ps < (Q + 1) * (D0 / Ps)) (c2 : Q * (D0 / Ps) ≤ N / Ps + n * Bn)
+    (hE : n * Bn * Ps + Q * (Ps - 1) ≤ D0) : Q = N / D0 ∨ Q = N / D0 + 1 := by
+  have hN := lt_mul_div_succ' N Ps hPs
+  have hDl : Ps * (D0 / Ps) ≤ D0 := Nat.mul_div_le _ _
+  have hDu := lt_mul_div_succ' D0 Ps hPs
+  have low : N < (Q + 1) * D0 := by
+    have a : Ps * (N / Ps + 1) ≤ Ps * ((Q + 1) * (D0 / Ps)) := Nat.mul_le_mul_left _ c1
+    have b : (Q + 1) * (Ps * (D0 / Ps)) ≤ (Q + 1) * D0 := Nat.mul_le_mul_left _ hDl
+    have e : Ps * ((Q + 1) * (D0 / Ps)) = (Q + 1) * (Ps * (D0 / Ps)) := by ring
+    omega
+  have high : Q * D0 ≤ N + D0 := by
+    have a : Ps * (Q * (D0 / Ps)) ≤ Ps * (N / Ps + n * Bn) := Nat.mul_le_mul_left _ c2
+    have b : Ps * (N / Ps) ≤ N := Nat.mul_div_le _ _
+    have c : Q * D0 ≤ Q * (Ps * (D0 / Ps) + (Ps - 1)) := Nat.mul_le_mul_left _ (by
+      have : Ps * (D0 / Ps + 1) = Ps * (D0 / Ps) + Ps := by ring
+      omega)
+    have e1 : Q * (Ps * (D0 / Ps) + (Ps - 1)) = Ps * (Q * (D0 / Ps)) + Q * (Ps - 1) := by ring
+    have e2 : Ps * (N / Ps + n * Bn) = Ps * (N / Ps) + n * Bn * Ps := by ring
+    omega
+  have h1 : N / D0 < Q + 1 := (Nat.div_lt_iff_lt_mul hD0).mpr low
+  have h2 : Q < N / D0 + 2 := by
+    have hdm := Nat.div_add_mod N D0
+    have hm := Nat.mod_lt N hD0
+    have : Q * D0 < (N / D0 + 2) * D0 := by nlinarith
+    exact Nat.lt_of_mul_lt_mul_right this
+  omega
+
+/-- the routine as a whole: ASSERTed domain ⇒ every callee inside its domain, qh ≤ 1, the `while` at :116 ran at most once in
+    every call, result ⌊N/D⌋ or ⌊N/D⌋ + 1 -/
+theorem dcDivappr_contract (T C nn dn N D : Nat) (hT : 6 ≤ T) (hC : 3 ≤ C) (hdn : 6 ≤ dn) (hnn : dn + 3 ≤ nn)
+    (hnorm : B ^ dn ≤ 2 * D) (hD : D < B ^ dn) (hN : N < B ^ nn) (hsize : 2 * dn + 2 ≤ B) :
+    (dcDivappr true T C sbLeaf nn dn N D).ok = true ∧ (dcDivappr true T C sbLeaf nn dn N D).q < B ^ (nn - dn) ∧
+    (dcDivappr true T C sbLeaf nn dn N D).qh ≤ 1 ∧ (dcDivappr true T C sbLeaf nn dn N D).wl ≤ 1 ∧
+    ((dcDivappr true T C sbLeaf nn dn N D).qh * B ^ (nn - dn) + (dcDivappr true T C sbLeaf nn dn N D).q = N / D ∨
+     (dcDivappr true T C sbLeaf nn dn N D).qh * B ^ (nn - dn) + (dcDivappr true T C sbLeaf nn dn N D).q = N / D + 1) := by
+  have hB := B_pos
+  unfold dcDivappr
+  have hspec := dcDivapprF_spec T C hT hC nn nn dn N D (by omega) (by omega) hD hnorm hN hsize (by omega)
+  unfold CallSpec at hspec
+  simp only [] at hspec
+  obtain ⟨c1, c2, c3, c4, c5, c6, _⟩ := hspec
+  have hD0 : 0 < D := by have := Bpow_pos dn; omega
+  refine ⟨c1, c2, c3, c4, ?_⟩
+  generalize dcDivapprF true T C sbLeaf nn nn dn N D = r at *
+  by_cases hcut : nn - dn + 1 < dn
+  · rw [if_pos hcut] at c5 c6
+    rw [Nat.add_sub_cancel] at c6
+    apply appr_budget _ N D (B ^ (dn - (nn - dn + 1))) (nn - dn) (B ^ (nn - dn)) (Bpow_pos _) hD0 c5 c6
+    -- (n+2)·B^n·Ps ≤ D
+    have hQ : r.qh * B ^ (nn - dn) + r.q ≤ 2 * B ^ (nn - dn) := by
+      have : r.qh * B ^ (nn - dn) ≤ 1 * B ^ (nn - dn) := Nat.mul_le_mul_right _ c3
+      omega
+    have e : B ^ dn = B * (B ^ (nn - dn) * B ^ (dn - (nn - dn + 1))) := by
+      rw [← pow_add, ← pow_succ']; congr 1; omega
+    have hPs := Bpow_pos (dn - (nn - dn + 1))
+    have h1 : (r.qh * B ^ (nn - dn) + r.q) * (B ^ (dn - (nn - dn + 1)) - 1)
+        ≤ 2 * B ^ (nn - dn) * B ^ (dn - (nn - dn + 1)) := Nat.mul_le_mul hQ (by omega)
+    have h2 : 2 * (nn - dn + 2) * (B ^ (nn - dn) * B ^ (dn - (nn - dn + 1))) ≤ B * (B ^ (nn - dn) * B ^ (dn - (nn - dn + 1))) :=
+      Nat.mul_le_mul_right _ (by omega)
+    rw [e] at hnorm
+    nlinarith
+  · rw [if_neg hcut] at c5 c6
+    rw [Nat.sub_self, pow_zero] at c5 c6
+    apply appr_budget _ N D 1 (dn - 1) (B ^ (dn - 1)) (by omega) hD0 c5 c6
+    rw [Nat.sub_self, Nat.mul_zero, Nat.add_zero, Nat.mul_one]
+    have e : B ^ dn = B * B ^ (dn - 1) := by rw [← pow_succ']; congr 1; omega
+    have h2 : 2 * (dn - 1) * B ^ (dn - 1) ≤ B * B ^ (dn - 1) := Nat.mul_le_mul_right _ (by omega)
+    rw [e] at hnorm
+    nlinarith
+
 end Mpir.DcDivappr
